@@ -222,7 +222,9 @@ type restored struct {
 
 // restoreInto restores an archive into a fresh datastore + fresh mock node and reads back identity and logs.
 // preexisting: the target secret store already holds an account.
-func restoreInto(t testing.TB, src *c20Source, archive []byte, preexisting bool) *restored {
+// patience: how long a restore may run before it is taken to wait for entries that are not in the archive; valid
+// archives get a long one (a slow machine must not turn into a rejection), mutated ones a short one.
+func restoreInto(t testing.TB, src *c20Source, archive []byte, preexisting bool, patience time.Duration) *restored {
 	r := &restored{groups: map[string]groupSnapshot{}}
 	ctx, cancel := context.WithCancel(context.Background())
 	defer cancel()
@@ -255,7 +257,7 @@ func restoreInto(t testing.TB, src *c20Source, archive []byte, preexisting bool)
 	}()
 	select {
 	case <-done:
-	case <-time.After(4 * time.Second):
+	case <-time.After(patience):
 		// the restore waits for entries that are not in the archive (it would fetch them from the network): end it
 		r.hung = true
 		callCancel()
@@ -445,7 +447,7 @@ func c20CheckValid(rep *vrep.Report, t testing.TB, src *c20Source) {
 	}
 	rep.Eval(fmt.Sprintf("valid/archive-content/groups=%d/max-heads=%d", len(src.groups), maxHeads))
 	// (b) restore into an empty node
-	r := restoreInto(t, src, src.archive, false)
+	r := restoreInto(t, src, src.archive, false, 60*time.Second)
 	rep.AddTransitions(1)
 	rep.Eval(fmt.Sprintf("valid/restore/groups=%d/err=%v", len(src.groups), r.err != nil))
 	if r.panicked != nil {
@@ -567,7 +569,7 @@ func c20Mutations(rep *vrep.Report, t testing.TB, src *c20Source) {
 	}
 	muts = append(muts, mut{"restore-onto-existing-account", clone(), true, true})
 
-	valid := restoreInto(t, src, src.archive, false)
+	valid := restoreInto(t, src, src.archive, false, 60*time.Second)
 	var wg sync.WaitGroup
 	sem := make(chan struct{}, 12)
 	for _, m := range muts {
@@ -576,7 +578,7 @@ func c20Mutations(rep *vrep.Report, t testing.TB, src *c20Source) {
 		sem <- struct{}{}
 		go func() {
 			defer func() { <-sem; wg.Done() }()
-			r := restoreInto(t, src, writeTar(m.ms), m.preexist)
+			r := restoreInto(t, src, writeTar(m.ms), m.preexist, 4*time.Second)
 			rep.AddTransitions(1)
 			outcome := "rejected"
 			switch {
